@@ -37,6 +37,7 @@ def run(ctx: Ctx):
     subtotal_methods(ctx)
     order_helpers(ctx)
     slice_properties(ctx)
+    measure_dependence_mirror(ctx)
 
 
 def _swap_nf(nf: str) -> str:
@@ -158,6 +159,17 @@ def _grid(ctx, ci):
     return g if kind == "grid" else None
 
 
+def _package_helpers(ctx: Ctx, e, mirrored: bool):
+    """Heads `Class.method` of the calls to classes of the package inside an expression (T applied to the method name)."""
+    out = set()
+    mod = ctx.repo.module(MM)
+    for n in ast.walk(e):
+        if isinstance(n, ast.Call) and isinstance(n.func, ast.Attribute) and isinstance(n.func.value, ast.Name) and ctx.repo.resolve_class(mod, n.func.value.id) is not None:
+            meth = swap_ident(n.func.attr) if mirrored else n.func.attr
+            out.add(f"{n.func.value.id}.{meth}")
+    return out
+
+
 def measure_pairs(ctx: Ctx):
     for rname, cname in (("_RowProportions", "_ColumnProportions"), ("_RowStandardError", "_ColumnStandardError")):
         gr, gc = _grid(ctx, ctx.repo.cls(MM, rname)), _grid(ctx, ctx.repo.cls(MM, cname))
@@ -170,6 +182,10 @@ def measure_pairs(ctx: Ctx):
                 where = f"{MM}::{rname}.blocks[{i}][{j}] <-> {cname}.blocks[{j}][{i}]"
                 ctx.ob("measure-mirror", where, tt[:300], u(gc[j][i])[:300], v, "block (i,j) of the row measure mirrors block (j,i) of the column measure. " + why)
                 ctx.count("measure mirror obligations")
+                # independent of the spelling: the twins go through the same subtotal machinery (mirrored)
+                hr, hc = _package_helpers(ctx, gr[i][j], mirrored=True), _package_helpers(ctx, gc[j][i], mirrored=False)
+                ctx.ob("measure-mirror.helpers", where, f"row twin: {sorted(hr)}; column twin: {sorted(hc)}", "the same subtotal helpers, mirrored", hr == hc,
+                       "one twin applies a subtotal rule (wave difference, NaN blanking ...) the other does not")
     # share of sum: compare the block references (numerator / denominator positions) only, spellings differ by design
     from ..blocks import block_refs
 
@@ -386,3 +402,28 @@ def slice_properties(ctx: Ctx):
         ctx.ob("slice-mirror.dependence", where, detail, "both twins read the same leaf facts, and both or neither go through the display order", same,
                "one twin depends on facts (display order / hidden set, another measure) the other does not depend on")
     ctx.require_min("slice property pairs", 25)
+
+
+def measure_dependence_mirror(ctx: Ctx):
+    """Row / column twins among the measures of the collection depend on the SAME kinds of leaf facts (FLOW read labels
+    carry no orientation): `row_proportions` <-> `column_proportions`, `rows_scale_mean` <-> `columns_scale_mean`, ...  A
+    twin that stops consulting the dimension type (the wave-difference rule), or starts to read other data, is not the
+    mirror image of the other - whatever shape its code has."""
+    from .common import measure_blocks_reads, slice_measures_obj
+
+    coll = slice_measures_obj(ctx)
+    names = {n for c in coll.cls.mro for n, m in c.members.items() if m.kind in ("lazyproperty", "property") and not n.startswith("_")}
+    n = 0
+    for name in sorted(names):
+        if not (name.startswith("row_") or name.startswith("rows_")):
+            continue
+        tw = swap_ident(name)
+        if tw not in names:
+            continue
+        rr, rc = set(measure_blocks_reads(ctx, coll, name)), set(measure_blocks_reads(ctx, coll, tw))
+        only_r, only_c = sorted(rr - rc), sorted(rc - rr)
+        n += 1
+        ctx.ob("measure-mirror.dependence", f"{MM}::SecondOrderMeasures.{name} <-> {tw}", f"only {name}: {only_r}; only {tw}: {only_c}" if (only_r or only_c) else f"{len(rr)} read labels on both sides",
+               "both twins read the same leaf facts", not (only_r or only_c), "one twin depends on facts the other does not depend on")
+    ctx.count("measure twins compared by dependence", n)
+    ctx.require_min("measure twins compared by dependence", 10)
